@@ -2872,7 +2872,9 @@ static void runResolvedImports(Ctx &ctx)
     stat("resolved_import_models");
     if (v.issues != 0) {
         stat("valid_models_rejected");
-        viol("C04", "false-rejection:" + rn(v.firstRule) + ":resolved-import", "model with resolved imports rejected:\n" + v.summary, replay);
+        // (the exact-zero comparison of summed exponents is a finding of its own, whatever scenario meets it)
+        std::string zero = mismatchOfZero(v.summary.substr(0, v.summary.find('\n')));
+        viol("C04", "false-rejection:" + rn(v.firstRule) + (zero.empty() ? ":resolved-import" : zero), "model with resolved imports rejected:\n" + v.summary, replay);
         caseInfo("S3:rejected", false);
         return;
     }
